@@ -52,10 +52,84 @@ pub fn run(tier: &str, seed: u64, only: Option<&str>) -> Run {
                     }
                 }
                 run.count_n("op-sequences", seqs.len() as u64);
+                // the protocol must also hold when the Difficulty handed to the calculator carries a
+                // `passed_objects(k)` of its own (whether that truncates the calculator is the calculator's
+                // business; that `len()` announces what `next()` then delivers is the protocol)
+                for k in [0usize, 1, p.units / 2, p.units + 2] {
+                    check_preset_protocol(&mut run, &c.id, &p, k as u32);
+                }
             }
             Err(e) if e.starts_with("convert:") => run.count("skipped:not-convertible"),
             Err(e) => run.fail("oracle:prepare", "", &c.id, e, c.text.clone()),
         }
     }
     run
+}
+
+
+/// Iterator-protocol self-consistency of a gradual difficulty calculator whose `Difficulty` carries
+/// `passed_objects(k)`: `len()` before the walk = number of values `next()` yields, `len()` drops by one per
+/// value and is 0 at the end, a further `next()` is `None`, and `nth(j)` on a fresh twin equals the `(j+1)`-th
+/// value of the walk for every `j < len`. No comparison with any one-shot result (seed
+/// C15-catch-gradual-take-vs-len-count: `new` honoured the limit, `len()` did not).
+fn check_preset_protocol(run: &mut Run, id: &str, p: &crate::grad::Prepared, k: u32) {
+    use crate::common::{guarded, mode_of};
+    use rosu_pp::GradualDifficulty;
+    let d = p.difficulty.clone().passed_objects(k);
+    let fresh = || guarded(|| GradualDifficulty::new_with_mode(d.clone(), &p.map, mode_of(p.mode)));
+    let Ok(Ok(mut g)) = fresh() else {
+        return;
+    };
+    run.count("preset-limit-protocol-walks");
+    let walk = guarded(move || {
+        let announced = g.len();
+        let mut vals: Vec<String> = Vec::new();
+        let mut lens: Vec<usize> = Vec::new();
+        for _ in 0..announced.min(100_000) + 3 {
+            match g.next() {
+                Some(v) => {
+                    vals.push(format!("{v:?}"));
+                    lens.push(g.len());
+                }
+                None => break,
+            }
+        }
+        let after = (g.next().is_none(), g.len());
+        (announced, vals, lens, after)
+    });
+    let (announced, vals, lens, after) = match walk {
+        Ok(w) => w,
+        Err(e) => {
+            run.fail("oracle:preset-limit-protocol-panic", "", id, format!("Difficulty carries passed_objects({k}): {e}"), p.repro());
+            return;
+        }
+    };
+    let mut bad = String::new();
+    if vals.len() != announced {
+        bad.push_str(&format!("len() announced {announced} values, next() yielded {}; ", vals.len()));
+    }
+    for (i, l) in lens.iter().enumerate() {
+        if *l + i + 1 != vals.len().max(announced) && bad.is_empty() {
+            bad.push_str(&format!("after value {} len() = {l}, expected {}; ", i + 1, announced.saturating_sub(i + 1)));
+        }
+    }
+    if !after.0 || after.1 != 0 {
+        bad.push_str(&format!("after exhaustion next().is_none() = {}, len() = {}; ", after.0, after.1));
+    }
+    // nth(j) on a fresh twin = (j+1)-th value, sampled
+    for j in [0usize, 1, vals.len() / 2, vals.len().saturating_sub(1)] {
+        if j >= vals.len() {
+            continue;
+        }
+        if let Ok(Ok(mut t)) = fresh() {
+            match guarded(move || t.nth(j).map(|v| format!("{v:?}"))) {
+                Ok(Some(v)) if v == vals[j] => {}
+                Ok(other) => bad.push_str(&format!("nth({j}) on a fresh calculator = {:?}, the walk's value {} is {}; ", other.map(|s| s.chars().take(80).collect::<String>()), j + 1, vals[j].chars().take(80).collect::<String>())),
+                Err(e) => bad.push_str(&format!("nth({j}) panicked: {e}; ")),
+            }
+        }
+    }
+    if !bad.is_empty() {
+        run.fail("oracle:preset-limit-protocol", "", id, format!("Difficulty carries passed_objects({k}): {bad}"), p.repro());
+    }
 }
